@@ -22,6 +22,8 @@
 (*              a new process                             (O1-O4, O6)      *)
 (*   end        the directory when the uninterrupted operation returned    *)
 (*                                                        (O1-O4, O5)      *)
+(*   follow(k)  crash(k) after ANOTHER operation (import / copy of the     *)
+(*              image concerned) was run on it            (O1-O4, O5)      *)
 (* The statement, clause by clause:                                        *)
 (*   O1 every file stored under a digest name has that digest              *)
 (*   O2 the marker and the index are complete JSON and the layout is       *)
@@ -74,21 +76,25 @@ PReset(h) ==
   /\ k' = 0
   /\ bad' = <<>>
 
-Kept(tab) == \A t \in (DOMAIN pre) \ tgt : t \in DOMAIN tab /\ tab[t] = pre[t]
+\* X: further tags that a follow-up operation names (empty for the operation itself)
+KeptX(tab, X) == \A t \in ((DOMAIN pre) \ tgt) \ X : t \in DOMAIN tab /\ tab[t] = pre[t]
+Kept(tab) == KeptX(tab, {})
 
 \* O1-O4 on the independent checker's facts about one directory state
-StateChecks(e, em, ei) ==
+StateChecksX(e, em, ei, X) ==
   << <<e.badfiles # <<>>, "O1">>,
      <<em /\ e.marker # "complete", "O2-marker">>,
      <<ei /\ e.index # "ok", "O2-index">>,
-     <<e.index = "ok" /\ ~Kept(Tab(e.tag_t, e.tag_d)), "O3">>,
+     <<e.index = "ok" /\ ~KeptX(Tab(e.tag_t, e.tag_d), X), "O3">>,
      <<e.dangling # <<>>, "O4">> >>
+StateChecks(e, em, ei) == StateChecksX(e, em, ei, {})
 
 \* O2-O4 as seen by the fresh real client
-FreshChecks(e, em, ei) ==
+FreshChecksX(e, em, ei, X) ==
   << <<em /\ ei /\ e.tl # "ok", "O2-readable">>,
-     <<~Kept(Tab(e.res_t, e.res_d)), "O3-fresh">>,
+     <<~KeptX(Tab(e.res_t, e.res_d), X), "O3-fresh">>,
      <<e.unres # <<>> \/ e.broken # <<>>, "O4-fresh">> >>
+FreshChecks(e, em, ei) == FreshChecksX(e, em, ei, {})
 
 \* the intended end state of the operation (O5 at the return, O6 after a retry)
 GoalChecks(e, o) ==
@@ -132,8 +138,25 @@ PRetry(e) ==
 \* interrupted operation (its own crash states are states after a second crash), so its end is judged as O6
 PEnd(e) ==
   /\ bad' = Failing(<< <<e.n # k, "seq">> >> \o StateChecks(e, TRUE, estI) \o FreshChecks(e, TRUE, estI)
-                    \o GoalChecks(e, IF e.second = 1 THEN "O6" ELSE "O5"))
+                    \o (IF e.second = 1 THEN GoalChecks(e, "O6")
+                        ELSE IF e.ok = 1 THEN GoalChecks(e, "O5") ELSE << >>))     \* O5 speaks of operations that returned success
   /\ UNCHANGED <<pre, tgt, op, estM, estI, k>>
+
+\* crash state k followed by ANOTHER operation that should complete the content (e.kind2 = import / copy of
+\* image e.opobj2 under tag e.optag2, run by a new process; e.ok = 1: it returned success).  A crash state is a
+\* valid layout, so whatever is done to it next is an ordinary operation on a populated layout: no tag that
+\* neither operation names may change (O3), every tag present must have all its parts (O4), and when the
+\* follow-up returned success its tag resolves to its image (O5 of the follow-up)
+PFollow(e) ==
+  LET cur == Tab(e.tag_t, e.tag_d)
+      res == Tab(e.res_t, e.res_d)
+      X == Range(e.tgt2)
+      tagged == e.optag2 \in DOMAIN cur /\ cur[e.optag2] = e.opobj2 /\ e.optag2 \in DOMAIN res /\ res[e.optag2] = e.opobj2
+      em == estM \/ e.ok = 1        \* a successful operation leaves a layout, whatever was there before
+      ei == estI \/ e.ok = 1
+  IN /\ bad' = Failing(<< <<e.k # k, "seq">> >> \o StateChecksX(e, em, ei, X) \o FreshChecksX(e, em, ei, X)
+                       \o << <<e.ok = 1 /\ ~tagged, "O5-follow-tag">> >>)
+     /\ UNCHANGED <<pre, tgt, op, estM, estI, k>>
 
 PUnknown == bad' = <<"unknown-event">> /\ UNCHANGED <<pre, tgt, op, estM, estI, k>>
 
